@@ -92,6 +92,13 @@ def session_program(kind, fname, params):
             p.call("i", "HLcreate", V("f"), 951, 1, 8, 2, bind="l")
             p.call("i", "Hwrite", V("l"), 30, bytes(range(30)))
             p.call("i", "Hendaccess", V("l"))
+        if params.get("reserve"):
+            # a new last element that reserves more space than the session writes: the file is only extended to
+            # the reserved length at the very end of the close
+            rsv, wr = params["reserve"]
+            p.call("i", "Hstartwrite", V("f"), 952, 1, rsv, bind="rs")
+            p.call("i", "Hwrite", V("rs"), wr, bytes([0x5a]) * wr)
+            p.call("i", "Hendaccess", V("rs"))
         p.raw("!mark flush")
         p.call("i", "Hclose", V("f"))
     elif kind == "h_newref":
@@ -197,6 +204,9 @@ def strategy_(draw, tier):
     if kind == "h_append":
         params["sizes"] = draw(st.lists(st.integers(1, 40), min_size=1, max_size=24))
         params["linked"] = draw(st.booleans())
+        if draw(st.integers(0, 2)) == 0:
+            rsv = draw(st.sampled_from([64, 300, 4096, 70000]))
+            params["reserve"] = [rsv, draw(st.integers(1, min(rsv - 1, 200)))]
     elif kind == "h_newref":
         params["sizes"] = draw(st.lists(st.integers(1, 16), min_size=1, max_size=6))
     elif kind == "v_append":
